@@ -79,6 +79,10 @@ def run(p, led, tier):
             weights, confs = (lambda i: Iv(0.0, 5.0, f"w{i}")), (lambda i: Iv(0.0, 1.0, f"conf{i}"))
         elif wmode == "zero-confidence":
             weights, confs = 1.0, 0.0
+        elif wmode == "not-a-number":
+            weights, confs = float("nan"), 1.0          # a weight nobody validated: every comparison with the tally is false
+        elif wmode == "infinite × zero":
+            weights, confs = float("inf"), 0.0          # inf * 0 = nan in the weighted tallies
         else:   # 'full': positive weights, full confidence
             weights, confs = (lambda i: Iv(0.1, 5.0, f"w{i}")), 1.0
         vs = ballots(it, comp, weights, confs)
@@ -102,7 +106,7 @@ def run(p, led, tier):
             for comp in comps(n):
                 if comp[0] != 0:
                     continue
-                for wmode in ("default", "wide", "zero-confidence"):
+                for wmode in ("default", "wide", "zero-confidence", "not-a-number", "infinite × zero"):
                     total_cells += 1
                     try:
                         paths = [r for _, r in explore(lambda o: aggregate(o, cls_, strat, thr, comp, wmode), max_paths=3000)]
@@ -279,6 +283,28 @@ def run(p, led, tier):
         led.fail("C06-R5", key, where(p2v, p2v.node), badm[0])
     else:
         led.ok("C06-R5", key, where(p2v, p2v.node), f"alphabet {alphabet}: PERMIT/EXECUTE → PERMIT, nothing else")
+
+    # a confidence the agent states is the confidence recorded on its ballot — 0 included (a zero-confidence permit must not
+    # be counted at full confidence)
+    badc = []
+    for conf in (0, 0.0, 0.4, 1.0, "absent"):
+        def go_c(o, _conf=conf):
+            it = Interp(p, o)
+            qo = mk_quorum(it, qs, "MAJORITY", None, 1)
+            prof = qo.fields["colony"][0]
+            payload = {"note": "x"} if _conf == "absent" else {"confidence": _conf, "note": "x"}
+            pr = it.instantiate(ap, ["PERMIT", payload, 1.0], {})
+            v = it.call_fi(p2v, [qo, pr, prof], {})
+            return v.fields["confidence"]
+        for _, got in explore(go_c, max_paths=20):
+            want = 1.0 if conf == "absent" else float(conf)
+            if not (isinstance(got, (int, float)) and float(got) == want):
+                badc.append(f"payload confidence {conf!r} is recorded as {got!r}")
+    key = "QuorumSensing._protein_to_vote ▸ the stated confidence is the recorded confidence (0 included)"
+    if badc:
+        led.fail("C06-R5", key, where(p2v, p2v.node), badc[0], witness="a PERMIT voter reporting confidence 0 against a BLOCK at 0.5 carries the CONFIDENCE / WEIGHTED vote")
+    else:
+        led.ok("C06-R5", key, where(p2v, p2v.node), "confidences 0, 0.0, 0.4, 1.0 and an absent key: recorded as stated / 1.0 by default")
 
     # ---------------- R8 every colony member is polled once and every ballot cast is counted (run_vote, namesakes included)
     led.rule("C06-R8", "run_vote polls every colony member once and counts one ballot per member, also for members that share a name, for members added later and across repeated votes", 1)
